@@ -11,7 +11,6 @@ themselves are tied to the loop by `cfinite_check` against Polar's linear system
 generated programs, by the Lean reference semantics (n <= 5)."""
 from .. import c0607_check as C
 from ..common import Check, lean_gate
-from ..findings import attribute
 from ..theorems import THEOREMS as _T
 
 PROP = "C06"
@@ -42,12 +41,6 @@ def run(tier):
     bad_oracle, n_oracle = C.oracle_crosscheck(cases, verdicts)
     oracle_bad_cases = {ci for ci, *_ in bad_oracle}
 
-    # known-finding attribution needs the same input re-run with the lattice repaired in memory
-    suspects = [i for i, v in enumerate(verdicts) if v["c06_bad"] and C.f4_signature(v.get("res") or {})]
-    repaired = C.attribution_runs(cases, verdicts, suspects, False, 0, None, timeout,
-                                  clean=lambda w: not w["c06_bad"]) if suspects else {}
-    latv = C.lattice_verdicts({i: verdicts[i]["res"] for i in suspects})
-
     validated = 0
     for ci, (case, v) in enumerate(zip(cases, verdicts)):
         chk.evaluations += 1
@@ -70,6 +63,8 @@ def run(tier):
             chk.count("irrational-coefficient-basis")
         if case["kind"] == "program":
             chk.count("printed-ok" if res.get("printed_ok") else "printed-mismatch")
+            if res.get("ambiguous_ids"):
+                chk.count("printed-with-ambiguous-goal-identifiers")
             if not res.get("printed_ok"):
                 chk.violation(f"{case['id']}: the printed 'Invariants' section is not the computed basis",
                               dict(C.replay_blob(case, v, "printed basis differs"), printed=res.get("printed_detail")))
@@ -88,20 +83,8 @@ def run(tier):
             chk.sample({"id": case["id"], "closed_forms": res.get("closed_forms"), "basis": res["basis_str"],
                         "n0": res["n0"], "windows": v["windows"]}, limit=5)
         for b in v["c06_bad"]:
-            rec = {"case": case["id"], "bases_q": res.get("bases_q"), "lattice": res.get("lattice"),
-                   "signature": C.f4_signature(res), "bad": b, "need": "unsound",
-                   "lattice_verdict": latv.get(ci),
-                   "repair_kind": (repaired.get(ci) or {}).get("kind"),
-                   "repaired_clean": bool((repaired.get(ci) or {}).get("clean")),
-                   "repaired_basis": (((repaired.get(ci) or {}).get("verdict") or {}).get("res") or {}).get("basis_str")}
-            fid = attribute(PROP, rec)
-            what = (f"{case['id']}: reported invariant {b['poly_str']} = 0 is false at n={b['n']} "
-                    f"(value {b['value']}); closed forms {res.get('closed_forms')}")
-            if fid:
-                chk.count("known:" + fid[0])
-                chk.known(fid[0], f"bases {res.get('bases')}: {b['poly_str']} = 0 reported, false at n={b['n']}")
-            else:
-                chk.violation(what, C.replay_blob(case, v, b))
+            chk.violation(f"{case['id']}: reported invariant {b['poly_str']} = 0 is false at n={b['n']} "
+                          f"(value {b['value']}); closed forms {res.get('closed_forms')}", C.replay_blob(case, v, b))
     chk.count("oracle-compared-values", n_oracle)
     chk.obligation("correspondence:basis-polynomials-validated-for-all-n", lean_ok and validated > 0 and
                    chk.counts.get("status:harness-error", 0) == 0, {"validated": validated})
